@@ -600,6 +600,8 @@ def _d1(ctx):
 
 
 def run(ctx):
+    C.require_locals(ctx, ctx.func('KernelDG.find_depending'), ['dst', 'register_changes'])
+    C.require_locals(ctx, ctx.func('KernelDG.is_memload'), ['register_changes'])
     _r1(ctx)
     _r2(ctx)
     _r3_r4(ctx)
